@@ -34,6 +34,17 @@ def make_array(rng, n, shape):
     if shape == "few":
         vals = [gen_instant(rng, pool) for _ in range(rng.randint(2, 5))]
         return [rng.choice(vals) for _ in range(n)]
+    if shape == "fewruns":
+        # a handful of constant runs, the larger values first: the in-place merge finds next to no distinct values
+        vals = sorted({gen_instant(rng, pool) for _ in range(rng.randint(2, 4))}, key=key, reverse=True)
+        cuts = sorted(rng.sample(range(1, max(2, n)), min(len(vals) - 1, max(0, n - 1)))) if n > 1 and len(vals) > 1 else []
+        if rng.random() < 0.5 and len(vals) == 2 and n > 1:
+            cuts = [n // 2]
+        out, prev = [], 0
+        for v, c in zip(vals, cuts + [n]):
+            out += [v] * (c - prev)
+            prev = c
+        return out[:n] + [vals[-1]] * (n - len(out[:n]))
     a = [gen_instant(rng, pool) for _ in range(n)]
     if shape == "random":
         return a
@@ -63,7 +74,7 @@ def make_array(rng, n, shape):
     return a
 
 
-SHAPES = ["random", "sorted", "reversed", "few", "equal", "sawtooth", "oneswap", "blocks"]
+SHAPES = ["random", "sorted", "reversed", "few", "fewruns", "equal", "sawtooth", "oneswap", "blocks"]
 
 
 def lenclass(n):
@@ -176,7 +187,7 @@ def main(tier):
     run = Run(PROP, tier)
     for p in pmap(worker, [(root, run.seed, tier, w, NCPU) for w in range(NCPU)]):
         run.merge(p)
-    run.cov["rule"] = ("arrays of every length 0..300 and around 2^k, 3*2^k, 511..514, 1023..1026, 4096 x 8 shapes "
+    run.cov["rule"] = ("arrays of every length 0..300 and around 2^k, 3*2^k, 511..514, 1023..1026, 4096 x 9 shapes "
                        "(random, sorted, reversed, few keys, all equal, sawtooth, one swap, sorted blocks) x "
                        "{instants, events with serial oids}; distinct = (kind, length class, shape) with >=2 distinct keys")
     run.assumptions = ["documented order = echs_instant_lt_p's: all-day before timed of the same day, all-second before ms 0",
